@@ -24,6 +24,10 @@ def gen_case(rng, idx, quick):
         kw["pid_size"] = rng.choice([4, 8]); kw["key_size"] = rng.choice([16, 32])
     kw["resend_limit"] = rng.choice([1, 2, 3, 4])
     kw["resend_timeout"] = rng.choice([0.5, 1.0, 1.5])
+    if rng.random() < 0.15:
+        # zlib compression of each packet payload (not modelled in Lean: such sessions are judged on the real code only; the
+        # framing is C08's)
+        kw["compression"] = 1
     if rng.random() < 0.25 and kw["transport"] == "udp":
         kw["start"] = (rng.choice([65533, 65534, 65535, 65530, 0, 1, 32767, 32768]), rng.choice([65534, 65535, 65531, 0, 40000]))
     cfg = ps.Cfg(**kw)
@@ -33,6 +37,9 @@ def gen_case(rng, idx, quick):
         if r < 0.5: n = rng.choice([1, max(1, fs - 1), fs, fs + 1, 2 * fs, 3 * fs + 1])
         else: n = rng.randint(1, 6 * fs)
         n = min(n, 255 * fs, 6000)
+        if cfg.compression and rng.random() < 0.6:
+            unit = rng.randbytes(rng.choice([1, 2, 5]))          # compressible (ratio byte above 1) as well as incompressible data
+            return (unit * (n // len(unit) + 1))[:n]
         return rng.randbytes(n)
     script = []
     for _ in range(rng.randint(1, 3)):
@@ -412,7 +419,7 @@ def work(args):
         sess = ps.run_session(cfg, sseed, script, ff, **kwargs)
         bad = judge(sess, regime)
         big = len(sess.netlog) > 20000
-        lines, expect = to_lines(sess, "s%d" % idx) if not sess.crash and not big else ([], [])
+        lines, expect = to_lines(sess, "s%d" % idx) if not sess.crash and not big and not sess.cfg.compression else ([], [])
         stats = {"tx": sum(1 for e in sess.netlog if e[0] == "tx"), "regime": regime if not isinstance(seed, str) else "directed:" + seed,
                  "enc": "lite" if cfg.transport == "lite" else "v%d" % cfg.version, "msgs": len(sess.accepted),
                  "connect_error": bool(sess.connect_error), "timed_out": sess.timed_out}
